@@ -143,7 +143,12 @@ fn iovec_op(c: &mut Cursor) -> Op {
             parts: (0..c.u8() % 4).map(|_| (c.u32(), c.u16() % 300)).collect(),
             collect: c.u8() % 2 == 0,
         },
-        9 | 10 => Op::Register { slot, len: c.u8() % 5 },
+        9 | 10 => {
+            let len = c.u8();
+            // One in eight placeholders is large (up to 1 KiB).
+            let big = if len & 0xE0 == 0xE0 { 5 + (c.u8() as u16) * 4 } else { 0 };
+            Op::Register { slot, len: len % 5, big }
+        }
         11 | 12 => Op::Backfill { slot, which: c.u8() },
         13 => Op::Clear { slot },
         14 => Op::Take { slot },
@@ -151,10 +156,16 @@ fn iovec_op(c: &mut Cursor) -> Op {
         16 => Op::DropSlot { slot },
         17 => Op::Flush { slot },
         18 => Op::Ensure { slot, len: size(c) },
-        19 => match c.u8() % 3 {
+        19 => match c.u8() % 5 {
             0 => Op::TakeArenaBack { slot },
             1 => Op::SwapArenas { a: slot, b: c.u8() },
-            _ => Op::NewFromArena { slot },
+            2 => Op::NewFromArena { slot },
+            _ => Op::FillChunk {
+                slot,
+                off: c.u32(),
+                leave: c.u16() % 1100,
+                via_copy: c.u8() % 2 == 0,
+            },
         },
         20 => Op::AnchoredPush {
             slot,
@@ -312,6 +323,7 @@ pub fn run_filtered(target: &str, data: &[u8], only: Option<&str>) -> (&'static 
                 cyclic,
                 block,
                 arena_prep,
+                big_chunk: false,
             };
             let mut results = vec![];
             if want("C08") {
